@@ -212,7 +212,7 @@ def wide(kind, n):
 
 
 # kind -> n: each is 4-16 KB of source; the limits below are per input, on the debug build of the real binary
-WIDE = {"ifs": 400, "elseifs": 400, "loops": 120, "sigchain": 120, "sum": 2000, "varchain": 800, "reassign": 600, "args": 1000, "templates": 300, "array": 1500}
+WIDE = {"ifs": 400, "elseifs": 400, "loops": 120, "sigchain": 800, "sum": 2000, "varchain": 800, "reassign": 600, "args": 1000, "templates": 300, "array": 1500}
 WIDE_SECONDS = 40               # CPU seconds on the machine the sizes were chosen on; scaled by the speed measured at run time
 WIDE_REFERENCE = ("varchain", 800, 5.7)   # an input whose cost the three repairs did not change, and its CPU seconds on that machine
 WIDE_MEMORY = 3 * 1024 ** 3      # address space, 1 GiB of which is the stack the tool reserves for its analysis thread
@@ -479,7 +479,7 @@ def run(ctx):
                    "panic!/unreachable!/assert of the non-test code has a disposition)" % (len(SPECIAL), len(NEST_KINDS), MODEST_DEPTH, n))
     cov["distribution"] = dict(stats)
     cov["samples"] = samples or [{"ledger": {k: v for k, v in ledger.items() if k != "problems"}}]
-    ctx.assumptions += ["inputs of modest size: nesting depth <= %d, width (consecutive statements / terms / signals / arguments) <= %d, file size <= 20 KB; "
+    ctx.assumptions += ["inputs of modest size: nesting depth <= %d, width (consecutive statements / terms / signals / arguments) <= %d, file size <= 30 KB; "
                         "a wide input must finish within %d s of CPU time (scaled up on a slower machine by the CPU time of a reference input) in at most %d MB of address space on the debug build" % (MODEST_DEPTH, max(WIDE.values()), WIDE_SECONDS, WIDE_MEMORY >> 20),
                         "deeper inputs (tens of thousands of nested blocks overflow the 1 GiB stack of the analysis thread: audits/C01/f4) are not modest",
                         "panic sites with the dispositions `environment` (stdout / file-system failures) and `trusted` (third-party contracts) are not exercised"]
